@@ -315,6 +315,11 @@ func (fr *Frame) applyContract(st *State, spec *FuncSpec, fn *ssa.Function, args
 				u.hset(st, mt.heap, mt.hsort, store(h, mt.idx, nv))
 			}
 		}
+		for _, mt := range mts {
+			if tag, ok := mapTagOf(mt.heap); ok && mt.idx != "" && strings.HasPrefix(mt.heap, "Mdom_") {
+				u.mapObjWF(st, tag, mt.idx)
+			}
+		}
 	}
 	rs := fr.freshResults(st, sig)
 	u.bindResultNames(env, spec, fn, rs)
@@ -415,6 +420,10 @@ func (u *Unit) resolveModifies(spec *FuncSpec, ctx *specCtx) ([]modTarget, error
 		case strings.HasPrefix(t, "heap:"):
 			n := strings.TrimPrefix(t, "heap:")
 			srt, ok := u.heapSort[n]
+			if (!ok || srt == "") && builtinGhostSort(n) != "" {
+				srt, ok = builtinGhostSort(n), true
+				u.heapSort[n] = srt
+			}
 			if !ok {
 				// unknown so far in this unit: nothing read from it yet; declare lazily with a guess is impossible
 				u.note("modifies names heap variable not otherwise used: " + n)
@@ -495,6 +504,24 @@ func fieldIndex(st *types.Struct, name string) int {
 		}
 	}
 	return -1
+}
+
+
+// mapObjWF re-states mapWF for the single map object m of heap tag `tag` after its contents were havocked.
+func (u *Unit) mapObjWF(st *State, tag, m string) {
+	mt := u.mapTags[tag]
+	if mt == nil || u.discovery {
+		return
+	}
+	ks := u.sortOf(mt.Key())
+	d := sel(u.hget(st, "Mdom_"+tag, u.heapSort["Mdom_"+tag]), m)
+	v := sel(u.hget(st, "Mval_"+tag, u.heapSort["Mval_"+tag]), m)
+	c := sel(u.hget(st, "Mcard_"+tag, "(Array Int Int)"), m)
+	dd := u.define("mdom", fmt.Sprintf("(Array %s Bool)", ks), d)
+	vv := u.define("mval", fmt.Sprintf("(Array %s %s)", ks, u.sortOf(mt.Elem())), v)
+	u.assume(st, fmt.Sprintf("(forall ((k %s)) (! (=> (not (select %s k)) (= (select %s k) %s)) :pattern ((select %s k))))", ks, dd, vv, u.zero(mt.Elem()), vv))
+	u.assume(st, sx(">=", c, "0"))
+	u.assume(st, fmt.Sprintf("(forall ((k %s)) (! (=> (select %s k) (> %s 0)) :pattern ((select %s k))))", ks, dd, c, dd))
 }
 
 // fieldCall: call through a function-valued struct field that has a bound contract.
@@ -601,8 +628,9 @@ func (fr *Frame) builtin(st *State, name string, c *ssa.CallCommon, args []Val, 
 	case "clear":
 		switch t := args[0].Ty.Underlying().(type) {
 		case *types.Map:
-			dn, ds, _, _, cn := u.mapHeaps(t)
+			dn, ds, vn, vs, cn := u.mapHeaps(t)
 			ks := u.sortOf(t.Key())
+			u.hset(st, vn, vs, store(u.hget(st, vn, vs), args[0].T, u.constArray(ks, u.sortOf(t.Elem()), u.zero(t.Elem()))))
 			u.hset(st, dn, ds, store(u.hget(st, dn, ds), args[0].T, fmt.Sprintf("((as const (Array %s Bool)) false)", ks)))
 			u.hset(st, cn, "(Array Int Int)", store(u.hget(st, cn, "(Array Int Int)"), args[0].T, "0"))
 		case *types.Slice:
